@@ -29,6 +29,11 @@ CONSTANTS NA,        \* number of callers
           Thr,       \* container threshold (AddTask returns TRUE when Len(held) >= Thr)
           MaxGen,    \* flusher generations; the last one never sees the clock jump
           Cap,       \* capacity of `commander` (1 = code under test)
+          Variant,   \* "code": as written.  Two seeded mechanism changes that the recorder catches on the real
+                     \*   code are kept as expected-violation variants (vacuity guards of the model):
+                     \*   "quit_ignores_inflight": shallQuit clears guarded without requiring inflight = 0;
+                     \*   "unguard_after_final_flush": guarded is cleared in the flusher's exit path, after the
+                     \*   deferred final Flush, instead of inside shallQuit's lock region
           Fix        \* 0 = code under test; 1 = proposed repair: the flusher decrements inflight only after
                      \*     enterExecution, and Wait lets inflight drain to 0 before waitGroup.Wait()
 
@@ -206,7 +211,7 @@ X2(q) ==
 (* ------------------------------------------------------------------ background flusher *)
 
 Alive(f)  == pc[f] \notin {"none", "f_dead"}
-Final(f)  == ret[f] = "f_dead" /\ pc[f] \in {"fl1", "fl2", "x1", "x2"}
+Final(f)  == (ret[f] \in {"f_dead", "f_unguard"} /\ pc[f] \in {"fl1", "fl2", "x1", "x2"}) \/ pc[f] = "f_unguard"
 InLoop(f) == Alive(f) /\ ~Final(f)
 
 FStart(f) ==                      \* ticker := newTicker(); last := timex.Now()
@@ -261,12 +266,19 @@ FAfterTick(f) ==
 
 FQuitChk(f) ==                    \* shallQuit: time test, then a pe.lock region
   /\ pc[f] = "f_quitchk"
-  /\ IF stale[f] /\ inflight = 0
-       THEN /\ guarded' = FALSE
+  /\ IF stale[f] /\ (inflight = 0 \/ Variant = "quit_ignores_inflight")
+       THEN /\ guarded' = IF Variant = "unguard_after_final_flush" THEN guarded ELSE FALSE
             /\ Goto(f, "fl1")                       \* deferred ticker.Stop(); deferred pe.Flush()
-            /\ ret' = [ret EXCEPT ![f] = "f_dead"]
+            /\ ret' = [ret EXCEPT ![f] = IF Variant = "unguard_after_final_flush" THEN "f_unguard" ELSE "f_dead"]
        ELSE /\ Goto(f, "f_select") /\ UNCHANGED <<guarded, ret>>
   /\ UNCHANGED <<bat, ip, cur, flok, held, cmd, inflight, barrier, wg, gen, commanded, stale,
+                 added, nexec, finished, returned, must, wok, contig>>
+
+FUnguard(f) ==                    \* variant only: guarded = false after the final Flush (a pe.lock region)
+  /\ pc[f] = "f_unguard"
+  /\ guarded' = FALSE
+  /\ Goto(f, "f_dead")
+  /\ UNCHANGED <<ret, bat, ip, cur, flok, held, cmd, inflight, barrier, wg, gen, commanded, stale,
                  added, nexec, finished, returned, must, wok, contig>>
 
 ClockJump(f) ==                   \* environment: more than 10 intervals pass since `last`
@@ -284,7 +296,7 @@ Next ==
   \/ \E p \in Adders, f \in Flushers : ASendSync(p, f) \/ Confirm(f, p)
   \/ \E q \in Procs : Fl1(q) \/ Fl2(q) \/ X1(q) \/ X2(q)
   \/ \E f \in Flushers : FStart(f) \/ FRecv(f) \/ FEnter(f) \/ FAfterCmd(f) \/ FTick(f) \/ FAfterTick(f)
-                         \/ FQuitChk(f) \/ ClockJump(f)
+                         \/ FQuitChk(f) \/ FUnguard(f) \/ ClockJump(f)
   \/ Terminated
 
 Spec == Init /\ [][Next]_vars
@@ -305,7 +317,8 @@ Places(t) ==
 \* exactly once: never lost, never duplicated (state invariant) ...
 ExactlyOnce == \A t \in 1..Len(added) : Places(t) = 1
 \* ... and whatever is still waiting has somebody who will execute it
-HeldCovered == held # <<>> => \E f \in Flushers : Alive(f) /\ ~(ret[f] = "f_dead" /\ pc[f] \in {"x1", "x2"})
+HeldCovered == held # <<>> => \E f \in Flushers : Alive(f) /\ ~(ret[f] \in {"f_dead", "f_unguard"} /\ pc[f] \in {"x1", "x2"})
+                                                    /\ pc[f] # "f_unguard"
 CmdCovered  == (cmd # <<>> \/ \E p \in Adders : pc[p] = "a_send") => \E f \in Flushers : InLoop(f)
 \* hence at quiescence every added task has been executed exactly once
 Quiescent   == AllDone /\ (\A f \in Flushers : ~Alive(f))
